@@ -447,13 +447,14 @@ PINNED = {   # theorem names pinned per property (files Props/Cxx.v and, where i
     "C12": ["C12_callback_protocol", "C12_relax_only_on_genuine_arcs", "C12_next_variable_depths",
             "C12_callbacks_only_on_states_of_the_layer", "C12_log_starts_with_next_variable", "C12_example_merged_state_is_expanded",
             "C12_checker_rejects_foreign_state"],
-    "C20": ["C20_as_graphviz_total", "C20_layers_never_empty"],
+    "C20": ["C20_as_graphviz_total", "C20_layers_never_empty", "C20_as_graphviz_is_the_rendered_statement_list", "C20_as_graphviz_faithful",
+            "C20_as_graphviz_line_syntax", "C20_declared_exactly_once", "C20_terminal_iff", "C20_example"],
     "C13": ["C13_restricted_width", "C13_relaxed_width_clean", "C13_times_debug_nonzero", "C13_times_release_nonzero",
             "C13_times_release_stays_usize", "C13_divby_nonzero",
             "C13_relaxed_width_pooled", "C13_exempting_two_layers_is_necessary", "C13_all_impacted_premise_is_necessary", "C13_example_pooled"],
 }
-PROPFILES = {"C06": "C06+C06u", "C07": "C07+C07u", "C08": "C08+C08u", "C12": "C12+C12u", "C13": "C13+C13u"}
-LEVEL = {"C06": "proof", "C07": "proof", "C08": "proof", "C12": "proof", "C13": "proof"}
+PROPFILES = {"C06": "C06+C06u", "C07": "C07+C07u", "C08": "C08+C08u", "C12": "C12+C12u", "C13": "C13+C13u", "C20": "C20+C20u"}
+LEVEL = {"C06": "proof", "C07": "proof", "C08": "proof", "C12": "proof", "C13": "proof", "C20": "proof"}
 OPEN = {
     "C06": ["pooled flavour, and compilations with a cache / dominance rule: correspondence + oracle only",
             "histories of one diagram object: the model compiles from a cleared diagram (the implementation side of the correspondence re-uses one object)"],
@@ -461,7 +462,7 @@ OPEN = {
     "C08": ["pooled flavour: correspondence + oracle only ((ii) is false there: finding D1)"],
     "C12": [],
     "C13": [],
-    "C20": ["C20_wellformed / C20_faithful as theorems about the string printer (validated by string equality + DOT reader)"],
+    "C20": ["DOT well-formedness against a grammar (the theorem is line-level: header / footer, `;`-terminated lines, quote parity); validated by the DOT reader of the check"],
 }
 
 
